@@ -66,11 +66,10 @@ theorem C17_argument_count (fuel : Nat) (prog : Prog) (env env1 : Env) (f : Stri
   simp only [this, if_true]; exact ⟨_, rfl⟩
 
 /-- assignment to a name that is not bound -/
-theorem C17_assign_unbound (fuel : Nat) (prog : Prog) (env env1 env2 : Env) (x : String) (path : Path) (e : Expr)
-    (v : Val) (steps : List Step) (he : evalExpr fuel prog env e = .ok (v, env1))
-    (hp : evalPath fuel prog env1 path = .ok (steps, env2)) (hx : env2.get? x = none) :
+theorem C17_assign_unbound (fuel : Nat) (prog : Prog) (env env1 : Env) (x : String) (path : Path) (e : Expr)
+    (v : Val) (he : evalExpr fuel prog env e = .ok (v, env1)) (hx : env1.get? x = none) :
     IsStuck (evalStmt (fuel + 1) prog env (.assign x path e)) := by
-  rw [evalStmt]; simp only [he, hp, hx]; exact ⟨_, rfl⟩
+  rw [evalStmt]; simp only [he, hx]; exact ⟨_, rfl⟩
 
 /-- a match without a matching arm (a non-exhaustive match reaching an uncovered value) -/
 theorem C17_no_arm (fuel : Nat) (prog : Prog) (env : Env) (v : Val) :
